@@ -1039,6 +1039,10 @@ func init() {
 						if !ok || ld.Op != token.MUL {
 							return false
 						}
+						// a load of the whole struct (`cp := *from`, `*e = *from`) reads every field
+						if n, isN := ld.Type().(*types.Named); isN && n == be && strings.HasPrefix(accessPath(ld.X), accessPath(src)) {
+							return true
+						}
 						fa, ok := ld.X.(*ssa.FieldAddr)
 						if !ok || namedOf(fa.X.Type()) != be || fa.Field != i {
 							return false
